@@ -61,7 +61,7 @@ class MermaidGantt:
 
     def __mermaid_task(self, t: Task) -> str:
         return "    {}: {} {}, {}, {}\n".format(
-            t.name.replace(':', ''),
+            escape(t.name.replace(':', '')),
             self.__mermaid_task_state(t),
             'id_' + str(t.id),
             t.start.strftime('%d.%m.%Y %H:%M'),
